@@ -206,6 +206,8 @@ func c12NodeCR(in vt.M, withPodIP bool, trunk bool) *networkv1beta1.Node {
 		},
 		IPv6: map[string]*networkv1beta1.IP{
 			"fd99:99::7": {IP: "fd99:99::7", Status: networkv1beta1.IPStatusValid, PodID: "default/other", PodUID: "uid-other"},
+			"fd99:99::8": {IP: "fd99:99::8", Status: networkv1beta1.IPStatusDeleting, PodID: podID, PodUID: c12UID},
+			"fd99:99::9": {IP: "fd99:99::9", Status: networkv1beta1.IPStatusValid, PodID: podID, PodUID: "uid-of-an-earlier-incarnation"},
 		},
 	}
 	n.Status.NetworkInterfaces["eni-x"] = other
